@@ -6,6 +6,7 @@ Prints the canonical observation text that the Rust harness prints for the real 
 import PieModel.Build.Pie
 import PieModel.Build.Script
 import PieModel.Build.StdSem
+import PieModel.Build.ScriptWF.Defs
 
 namespace Driver
 open PieModel
@@ -270,9 +271,15 @@ def stepB (b : BState) (line : String) : Option BState :=
     pure (b.put ("cl fs " ++ showFs s.fs))
   | _ => none
 
+/-- Model-only line: the VERIFIED Boolean checkers of the theorem hypotheses (`Build/ScriptWF/Defs.lean`, soundness in
+`Props/ScriptWF.lean`) evaluated on the program table of the case. -/
+def hypLine (tbl : List (Nat × Script)) : String :=
+  let b := fun (x : Bool) => if x then "1" else "0"
+  s!"m: hyp wf={b (Table.wfB tbl)} free={b (Table.wfFreeB tbl)} static={b (Table.staticRolesB tbl)} total={b (Table.stampTotalB tbl)} nofail={b (Table.noFailB tbl)}"
+
 def runBuildCase (lines : List String) : List String :=
   let rec go (b : BState) : List String → List String
-    | [] => b.out.toList
+    | [] => (b.put (hypLine b.tbl)).out.toList
     | l :: ls =>
       -- a session must be closed (the harness needs the whole session to run it)
       if l == "session" && !(ls.contains "endsession") then (b.put ("bad-op " ++ l)).out.toList else
